@@ -2093,3 +2093,159 @@ Proof.
   { unfold browse_eqb. rewrite !Bool.eqb_reflx, !BytesProofs.bytes_eqb_refl. reflexivity. }
   rewrite Ha, !Bool.eqb_reflx. reflexivity.
 Qed.
+
+(* ---- C17, long-lived engine: the refused input is the very first request of the session --------------------- *)
+Lemma first_refused_long : forall fuel rs c w lg bad,
+  c_first c = None -> refused bad ->
+  request_long fuel rs c (new_engine c None w lg) bad =
+  (if INPUT_LIMIT <? len bad then new_engine c None w lg else e_init c w lg,
+   mkResp (if INPUT_LIMIT <? len bad then false else true) (SErr EGen None) [] (FErr EFlushNoExec)).
+Proof.
+  intros fuel rs c w lg bad Hf Hr. rewrite request_long_finish, first_exec by exact Hf.
+  destruct (INPUT_LIMIT <? len bad) eqn:El.
+  - unfold long_finish. rewrite flush_before_exec by reflexivity. reflexivity.
+  - rewrite exec_tail_refused by exact Hr.
+    assert (Hv : valid_input_b bad = false).
+    { destruct Hr as [H|[_ H]]; [apply N.ltb_ge in El; lia|exact H]. }
+    rewrite Hv. unfold long_finish. rewrite flush_before_exec by reflexivity. reflexivity.
+Qed.
+
+Lemma e_init_next : forall fuel rs c w lg j,
+  c_first c = None -> input_ok_b j = true ->
+  snd (request_long fuel rs c (e_init c w lg) j) = snd (request_long fuel rs c (new_engine c None w lg) j)
+  /\ (if INPUT_LIMIT <? len j
+      then fst (request_long fuel rs c (e_init c w lg) j) = e_init c w lg
+           /\ fst (request_long fuel rs c (new_engine c None w lg) j) = new_engine c None w lg
+      else fst (request_long fuel rs c (e_init c w lg) j) = fst (request_long fuel rs c (new_engine c None w lg) j)).
+Proof.
+  intros fuel rs c w lg j Hf Hin. rewrite !request_long_finish, first_exec by exact Hf.
+  rewrite eng_exec_initd by (try reflexivity; intros H; discriminate).
+  change (stuck c (e_init c w lg)) with false. cbv iota. change (cleared (e_init c w lg)) with (e_init c w lg).
+  destruct (INPUT_LIMIT <? len j) eqn:El; [|split; reflexivity].
+  assert (Hv : valid_input_b j = true).
+  { unfold input_ok_b in Hin. rewrite El in Hin. cbn [andb] in Hin. destruct (valid_input_b j); [reflexivity|discriminate]. }
+  rewrite exec_tail_refused by (left; apply N.ltb_lt; exact El). rewrite Hv. cbn [negb].
+  unfold long_finish. rewrite !flush_before_exec by reflexivity. cbn [fst snd]. auto.
+Qed.
+
+Lemma serve_long_e_init : forall fuel rs c w lg h,
+  c_first c = None -> forallb input_ok_b h = true ->
+  snd (serve_long fuel rs c (e_init c w lg) h) = snd (serve_long fuel rs c (new_engine c None w lg) h).
+Proof.
+  intros fuel rs c w lg h Hf. induction h as [|j h IH]; intros Hall; [reflexivity|].
+  cbn [forallb] in Hall. apply andb_true_iff in Hall as [Hj Hall].
+  destruct (e_init_next fuel rs c w lg j Hf Hj) as [Hr He].
+  cbn [serve_long].
+  destruct (request_long fuel rs c (e_init c w lg) j) as [e1 r1].
+  destruct (request_long fuel rs c (new_engine c None w lg) j) as [e2 r2]. cbn [fst snd] in *. subst r2.
+  destruct (INPUT_LIMIT <? len j).
+  - destruct He as [-> ->]. specialize (IH Hall).
+    destruct (serve_long fuel rs c (e_init c w lg) h) as [? rr]. destruct (serve_long fuel rs c (new_engine c None w lg) h) as [? rr'].
+    cbn [snd] in *. congruence.
+  - subst e2. destruct (serve_long fuel rs c e1 h) as [? rr]. reflexivity.
+Qed.
+
+(* a refused first request: the remaining history is answered as without it, provided it contains no
+   input that is both over-long and malformed (K-C07-longbad shows up here as well) *)
+Lemma as_if_never_sent_long_first : forall fuel rs c w lg bad h2,
+  c_first c = None -> refused bad -> forallb input_ok_b h2 = true ->
+  snd (serve_long fuel rs c (fst (request_long fuel rs c (new_engine c None w lg) bad)) h2)
+  = snd (serve_long fuel rs c (new_engine c None w lg) h2).
+Proof.
+  intros fuel rs c w lg bad h2 Hf Hr Hall. rewrite first_refused_long by assumption. cbn [fst].
+  destruct (INPUT_LIMIT <? len bad); [reflexivity|]. apply serve_long_e_init; assumption.
+Qed.
+
+(* ================================================================================================ *)
+(* Witnesses                                                                                         *)
+(* ================================================================================================ *)
+Definition w_lines (l : list string) : bytes := join_with [10] (map s2b l).
+
+(* a paginated node (sink symbol of 8 rows, next/previous entries), a plain node, _catch *)
+Definition w_root_code : bytes :=
+  encode_prog [ILoad (s2b "aa"%string) 0; IMap (s2b "aa"%string); IMNext (s2b "nxt"%string) (s2b "11"%string);
+               IMPrev (s2b "prv"%string) (s2b "22"%string); IHalt;
+               IInCmp (s2b ">"%string) (s2b "11"%string); IInCmp (s2b "<"%string) (s2b "22"%string);
+               IInCmp (s2b "foo"%string) (s2b "1"%string)].
+Definition w_app_pages : app :=
+  mkApp [(s2b "root"%string, w_root_code);
+         (s2b "foo"%string, encode_prog [IMOut (s2b "back"%string) (s2b "0"%string); IHalt; IInCmp (s2b "_"%string) (s2b "0"%string)]);
+         (s2b "_catch"%string, encode_prog [IMOut (s2b "back"%string) (s2b "0"%string); IHalt; IInCmp (s2b "_"%string) (s2b "0"%string)])]
+        [(s2b "root"%string, s2b "r {{.aa}}"%string); (s2b "foo"%string, s2b "foo"%string); (s2b "_catch"%string, s2b "catch"%string)] []
+        [(s2b "aa"%string, [mkFres (w_lines ["one"; "two"; "three"; "four"; "five"; "six"; "seven"; "eight"]%string) false 0 [] [] false])].
+Definition w_cfg28 : config := mkCfg 28 [] 1 0 [] [] false None.
+(* forward, forward, back, a malformed input, an unknown selector, up, down, up, an over-long input *)
+Definition w_hist_pages : list bytes :=
+  [[]; s2b "11"%string; s2b "11"%string; s2b "22"%string; s2b "!x"%string; s2b "zz"%string; s2b "0"%string;
+   s2b "1"%string; s2b "0"%string; w_long].
+
+(* K-C07-first: the entry function runs once per ENGINE (corpus case first-terminate) *)
+Definition w_cfg_term : config :=
+  mkCfg 0 [] 1 0 [] [] false
+    (Some [mkFres (s2b "hello"%string) false 0 [] [] false; mkFres (s2b "blocked"%string) false 0 [6] [] false;
+           mkFres (s2b "again"%string) false 0 [] [] false]).
+Lemma refuted_first :
+  exists (a : app) (c : config) (h : list bytes),
+    c_first c <> None /\ cfg_flags_ok_b c = true /\ forallb input_ok_b h = true
+    /\ upto_stop (snd (serve_long 1000 (app_rsrc a) c (new_engine c None [] []) h))
+       <> upto_stop (snd (serve_pers 1000 (app_rsrc a) c (mkPw None [] [] false) h)).
+Proof.
+  exists w_app, w_cfg_term, [[]; s2b "1"%string; s2b "0"%string].
+  split; [discriminate|]. split; [vm_compute; reflexivity|]. split; [vm_compute; reflexivity|].
+  intros H. vm_compute in H. discriminate.
+Qed.
+
+(* K-C07-longbad: an input that is over-long AND malformed: the long-lived engine reports "continue"
+   (pattern check first), a new engine reports "stop" (its init refuses the length first) *)
+Lemma refuted_longbad :
+  exists (a : app) (c : config) (h : list bytes),
+    c_first c = None /\ cfg_flags_ok_b c = true /\ forallb input_ok_b h = false
+    /\ map r_cont (snd (serve_long 1000 (app_rsrc a) c (new_engine c None [] []) h)) = [true; true]
+    /\ map r_cont (snd (serve_pers 1000 (app_rsrc a) c (mkPw None [] [] false) h)) = [true; false]
+    /\ upto_stop (snd (serve_long 1000 (app_rsrc a) c (new_engine c None [] []) h))
+       <> upto_stop (snd (serve_pers 1000 (app_rsrc a) c (mkPw None [] [] false) h)).
+Proof.
+  exists w_app, w_cfg, [[]; w_longbad].
+  split; [reflexivity|]. split; [vm_compute; reflexivity|]. split; [vm_compute; reflexivity|].
+  split; [vm_compute; reflexivity|]. split; [vm_compute; reflexivity|].
+  intros H. vm_compute in H. discriminate.
+Qed.
+
+(* K-C07-browse: Menu.Reset keeps the browse configuration.  A node that sets a "next" entry, halts,
+   and then builds a paginated page WITHOUT moving shows the entry only in the long-lived engine *)
+Definition w_app_leak : app :=
+  mkApp [(s2b "root"%string,
+          encode_prog [IMNext (s2b "nx"%string) (s2b "11"%string); IHalt; ILoad (s2b "sk"%string) 0; IMap (s2b "sk"%string); IHalt;
+                       IInCmp (s2b "_"%string) (s2b "0"%string)]);
+         (s2b "_catch"%string, encode_prog [IHalt; IInCmp (s2b "_"%string) (s2b "*"%string)])]
+        [(s2b "root"%string, s2b "root"%string); (s2b "_catch"%string, s2b "catch"%string)] []
+        [(s2b "sk"%string, [mkFres (w_lines ["one"; "two"; "three"; "four"; "five"; "six"]%string) false 0 [] [] false])].
+Definition w_cfg20 : config := mkCfg 20 [] 1 0 [] [] false None.
+Lemma refuted_browse :
+  exists (a : app) (c : config) (h : list bytes),
+    c_first c = None /\ cfg_flags_ok_b c = true /\ forallb input_ok_b h = true
+    /\ c07_guard_b 1000 (app_rsrc a) c (new_engine c None [] []) h = false
+    /\ map r_out (snd (serve_long 1000 (app_rsrc a) c (new_engine c None [] []) h))
+       = [s2b "root"%string; s2b "root"%string ++ [10] ++ s2b "11:nx"%string]
+    /\ map r_out (snd (serve_pers 1000 (app_rsrc a) c (mkPw None [] [] false) h))
+       = [s2b "root"%string; s2b "root"%string]
+    /\ upto_stop (snd (serve_long 1000 (app_rsrc a) c (new_engine c None [] []) h))
+       <> upto_stop (snd (serve_pers 1000 (app_rsrc a) c (mkPw None [] [] false) h)).
+Proof.
+  exists w_app_leak, w_cfg20, [[]; s2b "x"%string].
+  split; [reflexivity|]. split; [vm_compute; reflexivity|]. split; [vm_compute; reflexivity|].
+  split; [vm_compute; reflexivity|]. split; [vm_compute; reflexivity|]. split; [vm_compute; reflexivity|].
+  intros H. vm_compute in H. discriminate.
+Qed.
+
+(* C17, long-lived engine, refused FIRST request: a later over-long malformed input then gets "continue" *)
+Lemma refuted_long_first_cont :
+  exists (a : app) (c : config) (bad j : bytes),
+    c_first c = None /\ refused bad /\ input_ok_b j = false
+    /\ map r_cont (snd (serve_long 1000 (app_rsrc a) c (new_engine c None [] []) [bad; j])) = [true; true]
+    /\ map r_cont (snd (serve_long 1000 (app_rsrc a) c (new_engine c None [] []) [j])) = [false].
+Proof.
+  exists w_app, w_cfg, (s2b "!x"%string), w_longbad.
+  split; [reflexivity|]. split; [apply refused_bool_spec; vm_compute; reflexivity|].
+  split; [vm_compute; reflexivity|]. split; vm_compute; reflexivity.
+Qed.
